@@ -504,3 +504,57 @@ func C04SessionObjects() {
 	}
 	sym.Reach("session-objects-done")
 }
+
+// C19FailedRequest: one goroutine's request is answered by an error (an object the service does not
+// host) while another asks for a registered service: the failure is the first goroutine's alone; the
+// other request succeeds, the proxies handed out earlier keep working, the shared connection is kept
+// (no new dial) and the session's directory proxy still answers.
+func C19FailedRequest() {
+	sym.Schedules(false)
+	srv, s, dials := zzFullSession()
+	if s == nil {
+		return
+	}
+	earlier, err := s.Proxy("ServiceDirectory", 1)
+	sym.Assert(err == nil, "failed-request/first-proxy")
+	if err != nil {
+		return
+	}
+	before := atomic.LoadInt32(dials)
+	sym.Schedules(true)
+	var bad, good bus.Proxy
+	var badErr, goodErr error
+	done := make(chan bool, 2)
+	go func() { bad, badErr = s.Proxy("ServiceDirectory", 1234); done <- true }()
+	go func() {
+		if sym.Bool("second-request-by-reference") {
+			good, goodErr = s.Object(object.ObjectReference{ServiceID: 1, ObjectID: 1, MetaObject: object.MetaObject{}})
+		} else {
+			good, goodErr = s.Proxy("ServiceDirectory", 1)
+		}
+		done <- true
+	}()
+	<-done
+	<-done
+	sym.Schedules(false)
+	_ = bad
+	sym.Assert(badErr != nil, "failed-request/unknown-object-accepted")
+	sym.Assert(goodErr == nil, "failed-request/request-for-a-registered-service-failed")
+	if goodErr == nil {
+		resp, err := good.CallID(2, []byte{1, 0, 0, 0})
+		sym.Assert(err == nil && len(resp) > 0, "failed-request/proxy-does-not-work")
+	}
+	resp, err := earlier.CallID(2, []byte{1, 0, 0, 0})
+	sym.Assert(err == nil && len(resp) > 0, "failed-request/earlier-proxy-stopped-working")
+	_, err = s.Directory.Services()
+	sym.Assert(err == nil, "failed-request/directory-proxy-stopped-working")
+	again, err := s.Proxy("ServiceDirectory", 1)
+	sym.Assert(err == nil && again != nil, "failed-request/later-request-failed")
+	sym.Assert(atomic.LoadInt32(dials) == before, "failed-request/new-connection-opened")
+	s.pollMutex.RLock()
+	sym.Assert(len(s.poll) == 1, "failed-request/connections-held")
+	s.pollMutex.RUnlock()
+	s.Terminate()
+	srv.Terminate()
+	sym.Reach("failed-request-done")
+}
